@@ -1,0 +1,21 @@
+//go:build verif
+
+package psql
+
+import (
+	"github.com/bmeg/grip/timestamp"
+	"github.com/jmoiron/sqlx"
+)
+
+// VerifGraph builds a Graph around an injected database handle (no connection is made).
+// Verification hook: compiled only with the `verif` build tag.
+func VerifGraph(db *sqlx.DB, graph, vertexTable, edgeTable string) *Graph {
+	ts := timestamp.NewTimestamp()
+	return &Graph{db: db, ts: &ts, v: vertexTable, e: edgeTable, graph: graph}
+}
+
+// VerifGraphDB builds a GraphDB around an injected database handle.
+func VerifGraphDB(db *sqlx.DB) *GraphDB {
+	ts := timestamp.NewTimestamp()
+	return &GraphDB{db, &ts}
+}
